@@ -2,6 +2,12 @@
 package c06
 
 import (
+	"github.com/libp2p/go-libp2p/core/crypto"
+	secp "github.com/decred/dcrd/dcrec/secp256k1/v4"
+	"math/big"
+	"encoding/asn1"
+	"crypto/elliptic"
+	"crypto/ecdsa"
 	varint "github.com/multiformats/go-varint"
 	mbase "github.com/multiformats/go-multibase"
 	"sync"
@@ -65,10 +71,33 @@ type Case struct {
 
 var byteKinds = []string{"bitflip", "delete", "insert-00", "insert-ff", "insert-copy", "subst-00", "subst-ff", "subst-not"}
 var fieldKinds = []string{"rewrite", "remove", "add-unknown"}
-var sigKinds = []string{"issuer-signs-noncanonical-bytes", "issuer-signs-noncanonical-bytes", "resign-by-prefix-twin", "issuer-under-other-multicodec", "issuer-under-other-multicodec", "issuer-signs-other-payload-encoding", "issuer-signs-other-payload-encoding", "issuer-signs-header-insert", "issuer-signs-header-insert", "issuer-signs-header-delete", "issuer-signs-header-subst", "issuer-signs-header-dup-segment", "issuer-signs-foreign-header", "issuer-signs-garbled-header", "issuer-signs-empty-header", "issuer-signs-extended-header", "resign-other-same-alg", "resign-other-alg", "resign-signer-header", "borrow-signature", "header-other-alg", "header-garbled", "header-empty", "sig-truncate", "sig-empty", "sig-extend", "sig-zero"}
+var sigKinds = []string{"issuer-signs-noncanonical-bytes", "issuer-signs-noncanonical-bytes", "resign-by-prefix-twin", "issuer-under-other-multicodec", "issuer-under-other-multicodec", "issuer-signs-other-payload-encoding", "issuer-signs-other-payload-encoding", "issuer-signs-header-insert", "issuer-signs-header-insert", "issuer-signs-header-delete", "issuer-signs-header-subst", "issuer-signs-header-dup-segment", "issuer-signs-foreign-header", "issuer-signs-garbled-header", "issuer-signs-empty-header", "issuer-signs-extended-header", "resign-other-same-alg", "resign-other-alg", "resign-signer-header", "borrow-signature", "header-other-alg", "header-garbled", "header-empty", "sig-truncate", "sig-empty", "sig-extend", "sig-zero", "ecdsa-forged-for-zero-digest", "ecdsa-forged-for-zero-digest", "ecdsa-trivial-values"}
 
 var dlgFields = []string{"iss", "aud", "sub", "cmd", "pol", "nonce", "meta", "nbf", "exp"}
 var invFields = []string{"iss", "aud", "sub", "cmd", "args", "prf", "nonce", "meta", "exp", "iat", "cause"}
+
+func pubPoint(alg keys.Alg, pub crypto.PubKey) (elliptic.Curve, *big.Int, *big.Int, bool) {
+	switch alg {
+	case keys.P256, keys.P384, keys.P521:
+		std, err := crypto.PubKeyToStdKey(pub)
+		if err != nil {
+			return nil, nil, nil, false
+		}
+		e, ok := std.(*ecdsa.PublicKey)
+		if !ok {
+			return nil, nil, nil, false
+		}
+		return e.Curve, e.X, e.Y, true
+	case keys.Secp256k1:
+		raw, _ := pub.Raw()
+		pk, err := secp.ParsePubKey(raw)
+		if err != nil {
+			return nil, nil, nil, false
+		}
+		return secp.S256(), pk.X(), pk.Y(), true
+	}
+	return nil, nil, nil, false
+}
 
 func otherKey(k tok.KeyRef, sameAlg bool, alt int) tok.KeyRef {
 	if sameAlg {
@@ -410,6 +439,44 @@ func corrupt(cs Case, sealed []byte) (out []byte, oldSig bool, ok bool) {
 		}
 		b, err := env.Assemble(e.Sig, env.SigPayloadNode(hdr, e.Tag, e.Payload))
 		return b, true, err == nil
+	case "ecdsa-forged-for-zero-digest", "ecdsa-trivial-values":
+		// signatures anyone can write down from the PUBLIC key: (r, s) = ((v*Q).x mod n, r/v mod n) verifies for the
+		// digest value zero (a verifier that ends up with an empty, nil or all-zero digest accepts it for any
+		// content); (0,0), (1,1), (n,n), (r, 0) are what sloppy range checks let through. Placed under a payload the
+		// issuer never signed (another command).
+		curve, qx, qy, isPoint := pubPoint(iss.Alg, iss.Key().Pub)
+		if !isPoint {
+			return nil, false, false
+		}
+		n := curve.Params().N
+		var r, sv *big.Int
+		if c.Kind == "ecdsa-forged-for-zero-digest" {
+			v := big.NewInt(int64(7 + c.Alt%1000))
+			x, _ := curve.ScalarMult(qx, qy, v.Bytes())
+			r = new(big.Int).Mod(x, n)
+			sv = new(big.Int).Mul(r, new(big.Int).ModInverse(v, n))
+			sv.Mod(sv, n)
+			if r.Sign() == 0 || sv.Sign() == 0 {
+				return nil, false, false
+			}
+		} else {
+			pairs := [][2]*big.Int{{big.NewInt(0), big.NewInt(0)}, {big.NewInt(1), big.NewInt(1)}, {n, n}, {big.NewInt(1), big.NewInt(0)}, {big.NewInt(0), big.NewInt(1)}, {new(big.Int).Sub(n, big.NewInt(1)), new(big.Int).Sub(n, big.NewInt(1))}, {qx, big.NewInt(1)}, {new(big.Int).Mod(qx, n), new(big.Int).Mod(qx, n)}}
+			pr := pairs[c.Alt%len(pairs)]
+			r, sv = pr[0], pr[1]
+		}
+		der, derr := asn1.Marshal(struct{ R, S *big.Int }{r, sv})
+		if derr != nil {
+			return nil, false, false
+		}
+		np := val.V{K: "map"}
+		for _, kv := range payload.M {
+			if kv.K == "cmd" {
+				kv.V = val.Str("/forged/by/anyone")
+			}
+			np.M = append(np.M, kv)
+		}
+		b, err := env.Assemble(der, env.SigPayloadNode(e.Header, e.Tag, np.Node()))
+		return b, false, err == nil
 	case "sig-truncate", "sig-empty", "sig-extend", "sig-zero":
 		sig := append([]byte{}, e.Sig...)
 		switch c.Kind {
